@@ -142,6 +142,7 @@ func c08run(cfg c08cfg, seq []c08ev) (sig, what, outcome string) {
 	mon.Metadata.LogLabels = map[string]string{}
 	mon.EventTypes = cfg.types
 	var got []string
+	var lastFR any
 	inf := newResourceInformer("", "", &resourceInformerConfig{mstor: vfx.NopStorage{}, monitor: mon, logger: log.NewNop(),
 		eventCb: func(ev kemtypes.KubeEvent) {
 			s := "?"
@@ -151,6 +152,7 @@ func c08run(cfg c08cfg, seq []c08ev) (sig, what, outcome string) {
 					rv = ev.Objects[0].Object.GetResourceVersion()
 				}
 				s = fmt.Sprintf("%s:%s:full=%v", ev.WatchEvents[0], rv, ev.Objects[0].Object != nil)
+				lastFR = ev.Objects[0].FilterResult
 			}
 			got = append(got, s)
 		}})
@@ -179,6 +181,7 @@ func c08run(cfg c08cfg, seq []c08ev) (sig, what, outcome string) {
 			rv = "-"
 		}
 		line := fmt.Sprintf("%s:%s:full=%v", ev.typ, rv, cfg.keepFull)
+		before := len(got)
 		switch ev.typ {
 		case kemtypes.WatchEventAdded:
 			inf.OnAdd(u, ev.initial)
@@ -186,6 +189,24 @@ func c08run(cfg c08cfg, seq []c08ev) (sig, what, outcome string) {
 			inf.OnUpdate(nil, u)
 		case kemtypes.WatchEventDeleted:
 			inf.OnDelete(u)
+		}
+		// an event handed to the hook carries the projection of the very object it is about
+		if len(got) > before && cfg.filter != "" && p.single && !p.nonObj {
+			var a, b any
+			switch x := lastFR.(type) {
+			case string:
+				_ = json.Unmarshal([]byte(x), &a)
+			default:
+				raw, _ := json.Marshal(x)
+				_ = json.Unmarshal(raw, &a)
+			}
+			raw, _ := json.Marshal(p.first)
+			_ = json.Unmarshal(raw, &b)
+			fa, _ := json.Marshal(a)
+			fb, _ := json.Marshal(b)
+			if string(fa) != string(fb) {
+				return "C08 event-filterResult type=" + string(ev.typ), fmt.Sprintf("step %d %s filter %q: the event carries filterResult %s, jq of the delivered object gives %s", i, ev, cfg.filter, fa, fb), ""
+			}
 		}
 		if ev.typ == kemtypes.WatchEventDeleted {
 			if enabled[ev.typ] {
